@@ -164,6 +164,11 @@ func takeCPUs(
 			})
 			cpusPerCore := acc.topology.CPUsPerCore()
 			for _, cpus := range freeCPUs {
+				// stop when the remaining request cannot hold one more physical core, otherwise the next socket
+				// would still give a whole core and more CPUs than requested are taken
+				if !acc.needs(cpusPerCore) {
+					break
+				}
 				for i := 0; i < len(cpus); i += cpusPerCore {
 					acc.take(cpus[i : i+cpusPerCore]...)
 					if acc.isSatisfied() {
